@@ -2,7 +2,11 @@
 loader and the same calls on fresh loaders, prints canonical public observables as JSON.
 
 usage: c12_impl.py <jobs.json> <out.json> <workdir>
-jobs.json = [{"log": [msgspec...], "histories": [[call, call, ...], ...]}, ...]
+jobs.json = [{"log": [msgspec...], "histories": [[call, call, ...], ...],
+              optional "pre": {"log": [...], "calls": [...]}  (the loader first reads another file, then open()s this one),
+              optional "twin": true  (a second DataLoader on the same file is alive and reads the history in reverse),
+              optional "mutate": kind  (after every read the RETURNED object is changed by the caller: clear / append /
+                                        popkey / to_numpy / align on the containers, array-write / payload-write in place)}, ...]
 msgspec   = {"t": type name, "p1": int seconds | null (invalid P1 time), "src": int, "sys": int seconds (events only)}
 call      = {"types": [names]|null, "tyf": "list"|"set"|"tuple"|"cls"|"single"|"cls1" (how message_types is passed),
              "tr": null|[start|null, end|null, absolute(bool)], "trf": "obj"|"str"|"tuple"|"ts" (TimeRange object,
@@ -197,11 +201,58 @@ def time_table(loader, tr):
         return {'exc': type(e).__name__, 'msg': str(e)[:200]}
 
 
-def do_read(loader, c):
+def do_read_raw(loader, c):
     try:
-        return canon(loader.read(**to_kwargs(c)))
+        r = loader.read(**to_kwargs(c))
+        return r, canon(r)
     except Exception as e:   # an exception is an outcome too
-        return {'exc': type(e).__name__, 'msg': str(e)[:200]}
+        return None, {'exc': type(e).__name__, 'msg': str(e)[:200]}
+
+
+def do_read(loader, c):
+    return do_read_raw(loader, c)[1]
+
+
+def entries_of(r):
+    return [r] if isinstance(r, MessageData) else list(r.values())
+
+
+def mutate_result(r, kind):
+    """what a caller may do with an object read() handed out"""
+    if r is None:
+        return
+    try:
+        if kind == 'clear':
+            for e in entries_of(r):
+                if isinstance(e.messages, list):
+                    e.messages.clear()
+        elif kind == 'append':
+            for e in entries_of(r):
+                if isinstance(e.messages, list) and e.messages:
+                    e.messages.append(e.messages[0])
+        elif kind == 'popkey':
+            if isinstance(r, dict) and r:
+                r.pop(next(iter(r)))
+        elif kind == 'to_numpy':
+            if isinstance(r, dict):
+                DataLoader.to_numpy(r, keep_messages=False)
+        elif kind == 'align':
+            if isinstance(r, dict):
+                DataLoader.time_align_data(r, TimeAlignmentMode.DROP)
+        elif kind == 'array-write':
+            for e in entries_of(r):
+                for k, v in e.__dict__.items():
+                    if isinstance(v, np.ndarray) and v.size > 0 and v.flags.writeable and v.dtype.kind in 'fiu':
+                        v.flat[0] = 77
+        elif kind == 'payload-write':
+            for e in entries_of(r):
+                for m in e.messages:
+                    if m.get_type() == MessageType.POSE:
+                        m.aggregate_protection_level_m = 900.0
+                    elif m.get_type() == MessageType.EVENT_NOTIFICATION:
+                        m.event_flags = 900
+    except Exception:
+        pass
 
 
 def main():
@@ -232,11 +283,35 @@ def main():
                 k = json.dumps(c.get('tr'))
                 if k not in res['tt']:
                     res['tt'][k] = time_table(first, c.get('tr'))
-        for h in job['histories']:
-            loader = DataLoader(path, num_threads=1)
-            outs = []
-            for c in h:
-                outs.append(do_read(loader, c))
+        prepath = None
+        if job.get('pre'):
+            prepath = os.path.join(work, 'pre%d_%d.p1log' % (os.getpid(), j))
+            build_log(prepath, job['pre']['log'])
+        res['changed'] = []
+        for hi, h in enumerate(job['histories']):
+            if prepath:
+                loader = DataLoader(prepath, num_threads=1)
+                for c in job['pre']['calls']:
+                    do_read(loader, c)
+                loader.open(path, num_threads=1)          # a second file on the same loader
+            else:
+                loader = DataLoader(path, num_threads=1)
+            twin = DataLoader(path, num_threads=1) if job.get('twin') else None
+            outs, kept = [], []
+            for ci, c in enumerate(h):
+                if twin is not None:
+                    do_read(twin, h[len(h) - 1 - ci])
+                raw, cn = do_read_raw(loader, c)
+                outs.append(cn)
+                # results handed out by earlier reads must still be what they were
+                for (cj, obj, snap) in kept:
+                    now = canon(obj)
+                    if now != snap and not any(x[0] == hi and x[1] == cj for x in res['changed']):
+                        res['changed'].append([hi, cj, ci, snap, now])
+                if job.get('mutate'):
+                    mutate_result(raw, job['mutate'])
+                elif raw is not None:
+                    kept.append((ci, raw, cn))
                 k = json.dumps(c, sort_keys=True)
                 if k not in res['fresh']:
                     res['fresh'][k] = do_read(DataLoader(path, num_threads=1), c)
@@ -244,6 +319,10 @@ def main():
                         c2 = dict(c, max=None)
                         res['nomax'][k] = do_read(DataLoader(path, num_threads=1), c2)
             res['hist'].append(outs)
+        if prepath:
+            for p in (prepath, os.path.splitext(prepath)[0] + '.p1i'):
+                if os.path.exists(p):
+                    os.remove(p)
         out.append(res)
         for p in (path, os.path.splitext(path)[0] + '.p1i'):
             if os.path.exists(p):
